@@ -145,6 +145,8 @@ class Func:
                     merged[-1] += ' ' + t
                 else: merged.append(t)
             blocks[b] = merged
+        if not blocks[order[0]] and len(order) > 1:
+            del blocks[order[0]]; order.pop(0)
         s.blocks, s.order = blocks, order
 
 class Module:
